@@ -383,11 +383,18 @@ void ZSTD_copyDCtx(ZSTD_DCtx* dstDCtx, const ZSTD_DCtx* srcDCtx)
  *
  * ZSTD_d_refMultipleDDicts must be enabled for this function to be called.
  */
+/* The selection among the referenced DDicts applies when the current dictionary is a referenced DDict :
+ * a single-use dictionary that has served is no current dictionary,
+ * and a dictionary loaded into the context (or a pending prefix) is never replaced */
+static int ZSTD_DCtx_selectionApplies(const ZSTD_DCtx* dctx)
+{
+    return dctx->ddict != NULL && dctx->dictUses != ZSTD_dont_use && dctx->ddict != dctx->ddictLocal;
+}
+
 static void ZSTD_DCtx_selectFrameDDict(ZSTD_DCtx* dctx) {
     assert(dctx->refMultipleDDicts && dctx->ddictSet);
     DEBUGLOG(4, "Adjusting DDict based on requested dict ID from frame");
-    if ( dctx->ddict && dctx->dictUses != ZSTD_dont_use   /* a single-use dictionary that has served is no current dictionary */
-      && dctx->ddict != dctx->ddictLocal ) {   /* the selection replaces a referenced DDict, never a dictionary loaded into the context (or a pending prefix) */
+    if (ZSTD_DCtx_selectionApplies(dctx)) {
         const ZSTD_DDict* frameDDict = ZSTD_DDictHashSet_getDDict(dctx->ddictSet, dctx->fParams.dictID);
         if (frameDDict) {
             DEBUGLOG(4, "DDict found!");
@@ -1162,7 +1169,7 @@ size_t ZSTD_decompressMultiFrame(ZSTD_DCtx* dctx,
                 continue; /* check next frame */
         }   }
 
-        if (ddict && dctx->ddict
+        if (ddict && ZSTD_DCtx_selectionApplies(dctx)
          && dctx->refMultipleDDicts == ZSTD_rmd_refMultipleDDicts && dctx->ddictSet) {
             /* several DDicts are referenced : start from the one this frame requests,
              * ZSTD_decodeFrameHeader() selects it too late to load its tables and content */
